@@ -72,6 +72,42 @@ func (g *gen) longHost(n int) string {
 	return strings.Join(parts, ".")
 }
 
+// maximalPattern builds a pattern of the documented grammar at its length maxima: 64-byte scheme
+// (all documented scheme bytes), 253-byte domain (251 after a wildcard label), optional trailing dot,
+// 5-digit port; each maximum is relaxed with small probability so that its neighbours are hit too.
+func (g *gen) maximalPattern() string {
+	const later = "abcdefghijklmnopqrstuvwxyz0123456789+-."
+	n := 64
+	if g.p(20) {
+		n = 63 + g.n(3)
+	}
+	var b strings.Builder
+	for i := 0; i < n; i++ {
+		if i == 0 {
+			b.WriteByte(later[g.n(26)])
+		} else {
+			b.WriteByte(later[g.n(len(later))])
+		}
+	}
+	scheme := b.String()
+	if scheme == "file" || scheme == "https" {
+		scheme = "x" + scheme[1:]
+	}
+	hl, wild := 253, ""
+	if g.p(30) {
+		hl, wild = 251, "*."
+	}
+	if g.p(20) {
+		hl += g.n(3) - 1
+	}
+	host := wild + g.longHost(hl)
+	if g.p(60) {
+		host += "."
+	}
+	port := pick(g, []string{":65535", ":65535", ":10000", ":65534", ":65536", ":99999", ":*", ""})
+	return scheme + "://" + host + port
+}
+
 func (g *gen) scheme() string {
 	switch {
 	case g.p(85):
@@ -145,8 +181,35 @@ func (g *gen) validPattern() string {
 
 var junkSuffix = []string{"/", "/path", "?q=1", "?", "#f", " ", "\t", "\x00", "é", "/..", "@evil.com", ":80:80"}
 
+var spliceJunk = []string{"@evil.test", ":evil.test", "X", "\x00", "\xc3\xa9", "://", "/", "?", "#", " ", "\t", ".", "..", "-", "_", "%41", "[", "]", "*", "0", ":"}
+
+// splice inserts junk at a structural boundary of an origin or pattern: before or after `://`,
+// before the port colon, at either end of the host, at the very end.
+func (g *gen) splice(s string) string {
+	i := strings.Index(s, "://")
+	if i < 0 {
+		return s + pick(g, spliceJunk)
+	}
+	hostStart := i + 3
+	portColon := strings.LastIndex(s[hostStart:], ":")
+	if strings.HasSuffix(s, "]") || (portColon >= 0 && strings.Contains(s[hostStart+portColon:], "]")) {
+		portColon = -1
+	}
+	points := []int{i, hostStart, len(s)}
+	if portColon >= 0 {
+		points = append(points, hostStart+portColon, hostStart+portColon+1)
+	}
+	if i > 0 {
+		points = append(points, i-1, 1)
+	}
+	at := pick(g, points)
+	return s[:at] + pick(g, spliceJunk) + s[at:]
+}
+
 func (g *gen) mutate(s string) string {
-	switch g.n(9) {
+	switch g.n(12) {
+	case 9, 10, 11:
+		return g.splice(s)
 	case 0:
 		return s + pick(g, junkSuffix)
 	case 1:
